@@ -14,6 +14,7 @@ from .. import runspace
 from ..common import Check
 
 LEVEL = "model_checking"
+RULE = ('cases = ProgramSpace.tla run vectors with --dry-run on and off; non-trivial when the non-dry counterpart changes at least one file; distinct = distinct vectors')
 
 CLAUSES = ("inv:C04", "FileEnd:dry-run-wrote", "Deps:dry-run-wrote", "RunEnd:tree-changed", "RunEnd:outside", "Compare:", "FileBegin:changed-behind")
 
